@@ -1,0 +1,24 @@
+//go:build verif
+
+package http3
+
+// Export shim for the C19 check of the verification harness in /verif. Compiled only with -tags verif.
+// Add-only, no behaviour change: a request writer that lives as long as a client connection's does
+// (ClientConn keeps one requestWriter for all its request streams), so that the harness can write
+// several requests through the same instance.
+
+import (
+	"io"
+	"net/http"
+)
+
+// VerifRequestWriter wraps one requestWriter.
+type VerifRequestWriter struct{ w *requestWriter }
+
+// VerifNewRequestWriter returns a request writer as newClientConn creates it.
+func VerifNewRequestWriter() *VerifRequestWriter { return &VerifRequestWriter{w: newRequestWriter()} }
+
+// WriteRequestHeader writes the HEADERS frame for req to wr.
+func (v *VerifRequestWriter) WriteRequestHeader(wr io.Writer, req *http.Request, gzip bool) error {
+	return v.w.WriteRequestHeader(wr, req, gzip, 0, nil)
+}
